@@ -76,7 +76,7 @@ Definition ret {A} (a : A) : M A := (Ok a, []).
 Definition fail {A} (e : errk) : M A := (Err e, []).
 Definition bind {A B} (m : M A) (f : A -> M B) : M B :=
   match fst m with
-  | Ok a => (fst (f a), (snd m ++ snd (f a))%list)
+  | Ok a => let r := f a in (fst r, (snd m ++ snd r)%list)
   | Err e => (Err e, snd m)
   end.
 Notation "x <- m ;; f" := (bind m (fun x => f)) (at level 61, m at next level, right associativity).
